@@ -344,3 +344,127 @@ Proof.
   - erewrite held_upd_same; [exact HG | exact Hn |].
     unfold held_of; cbn; rewrite Hpc. now destruct (fixed c && l_done lp).
 Qed.
+
+(* ------------------------------------------------------------------ *)
+(* reachable states *)
+
+Lemma Inv_init c msgs k : Inv c (init msgs k).
+Proof.
+  split; cbn; [lia|]. intros [|[|i]] lp H; cbn in H; try discriminate. now injection H as <-.
+Qed.
+
+Lemma GInv_init msgs k : GInv msgs (init msgs k).
+Proof. unfold GInv, Graw, held. cbn. apply Permutation_refl. Qed.
+
+Lemma Inv_run c msgs k sched s : run c (init msgs k) sched = Some s -> Inv c s.
+Proof. apply (run_invariant c (Inv c)); [apply Inv_step | apply Inv_init]. Qed.
+
+Lemma GInv_run c msgs k sched s : run c (init msgs k) sched = Some s -> GInv msgs s.
+Proof. apply (run_invariant c (GInv msgs)); [apply GInv_step | apply GInv_init]. Qed.
+
+(* a complete run: no thread can move *)
+Definition terminal (c : cfg) (s : st) : Prop := forall a, step c s a = None.
+
+Lemma NoDup_app_l {A} (a b : list A) : NoDup (a ++ b) -> NoDup a.
+Proof.
+  induction a as [|x a IH]; intro H; [constructor|]. cbn in H. inversion H as [|? ? Hni Hnd]; subst.
+  constructor; auto. intro Hin. apply Hni. apply in_or_app. now left.
+Qed.
+
+(* ---- at most once (both shapes of the code) ---- *)
+Theorem at_most_once c msgs k sched s :
+  NoDup msgs -> run c (init msgs k) sched = Some s ->
+  NoDup (map fst (log s)) /\ incl (map fst (log s)) msgs.
+Proof.
+  intros Hnd HR. pose proof (GInv_run _ _ _ _ _ HR) as HG. unfold GInv, Graw in HG. split.
+  - eapply NoDup_app_l. eapply Permutation_NoDup; eauto.
+  - intros x Hx. eapply Permutation_in; [apply Permutation_sym; exact HG|]. apply in_or_app. now left.
+Qed.
+
+(* ---- exactly once in complete runs with the connection open (both shapes) ---- *)
+Lemma terminal_pcs c s l lp :
+  terminal c s -> nth_error (loops s) l = Some lp ->
+  l_pc lp = PSelect \/ (exists m r ops, l_pc lp = PWait m r ops) \/ l_pc lp = PExit.
+Proof.
+  intros HT Hn. specialize (HT (ALoop l AltQueue)). cbn in HT. unfold step_loop in HT. rewrite Hn in HT.
+  destruct (l_pc lp) as [ |m|m|m ops|m r ops| | ] eqn:Epc; auto; try discriminate.
+  - destruct ops as [|[|r] ops]; discriminate.
+  - right. left. eauto.
+Qed.
+
+Lemma held_nil ls : (forall lp, In lp ls -> held_of lp = []) -> held ls = [].
+Proof.
+  induction ls as [|x r IH]; intro H; auto. rewrite held_cons. rewrite H by now left.
+  cbn. apply IH. intros lp Hin. apply H. now right.
+Qed.
+
+Lemma terminal_open_empty c s :
+  Inv c s -> terminal c s -> closed s = false ->
+  queue s = [] /\ prod s = [] /\ held (loops s) = [] /\
+  exists lc, nth_error (loops s) (cur s) = Some lc /\ l_pc lc = PSelect /\ l_done lc = false.
+Proof.
+  intros [Hc Hall] HT Hop.
+  destruct (nth_error (loops s) (cur s)) as [lc|] eqn:En; [|apply nth_error_None in En; lia].
+  pose proof (Hall _ _ En) as Ho. rewrite Nat.eqb_refl, Hop in Ho.
+  assert (Hsel : l_pc lc = PSelect /\ l_done lc = false).
+  { destruct (terminal_pcs _ _ _ _ HT En) as [E|[(m & r & ops & E)|E]];
+      unfold okl, cur_ok in Ho; rewrite E in Ho; cbn in Ho;
+      destruct (rd_ok lc), (l_done lc); cbn in Ho; try discriminate; auto. }
+  destruct Hsel as [Hsel Hdone].
+  assert (Hq : queue s = []).
+  { pose proof (HT (ALoop (cur s) AltQueue)) as H. cbn in H. unfold step_loop in H. rewrite En, Hsel in H.
+    destruct (queue s); auto; discriminate. }
+  assert (Hp : prod s = []).
+  { pose proof (HT APush) as H. cbn in H. rewrite Hq in H. destruct (prod s); auto. cbn in H. discriminate. }
+  repeat split; auto.
+  - apply held_nil. intros lp Hin. apply In_nth_error in Hin as [l Hn].
+    destruct (terminal_pcs _ _ _ _ HT Hn) as [E|[(m & r & ops & E)|E]]; unfold held_of; now rewrite E.
+  - exists lc. auto.
+Qed.
+
+Theorem exactly_once c msgs k sched s :
+  run c (init msgs k) sched = Some s -> terminal c s -> closed s = false ->
+  Permutation msgs (map fst (log s)).
+Proof.
+  intros HR HT Hop. pose proof (GInv_run _ _ _ _ _ HR) as HG. pose proof (Inv_run _ _ _ _ _ HR) as HI.
+  destruct (terminal_open_empty _ _ HI HT Hop) as (Hq & Hp & Hh & _).
+  unfold GInv, Graw in HG. rewrite Hq, Hp, Hh in HG. cbn in HG. now rewrite app_nil_r in HG.
+Qed.
+
+(* ---- never stalls: whatever the nesting depth (any number of loops blocked in nested requests), while
+   the connection is open there is a current loop that is none of the blocked ones, has not been told to
+   stop, has not exited, is not itself blocked, and is either at its select (ready for the next message)
+   or able to move ---- *)
+Theorem never_stalls c msgs k sched s :
+  run c (init msgs k) sched = Some s -> closed s = false ->
+  exists lc, nth_error (loops s) (cur s) = Some lc /\ l_done lc = false /\ l_pc lc <> PExit /\
+    (forall m r ops, l_pc lc <> PWait m r ops) /\
+    (l_pc lc = PSelect \/ exists s', step c s (ALoop (cur s) AltQueue) = Some s') /\
+    forall l lp m r ops, nth_error (loops s) l = Some lp -> l_pc lp = PWait m r ops -> l <> cur s.
+Proof.
+  intros HR Hop. pose proof (Inv_run _ _ _ _ _ HR) as [Hc Hall].
+  destruct (nth_error (loops s) (cur s)) as [lc|] eqn:En; [|apply nth_error_None in En; lia].
+  pose proof (Hall _ _ En) as Ho. rewrite Nat.eqb_refl, Hop in Ho.
+  unfold okl, cur_ok in Ho. apply andb_true_iff in Ho as [_ Ho]. apply andb_true_iff in Ho as [Hd Hpc].
+  exists lc. split; auto. split; [now destruct (l_done lc)|].
+  split; [intro E; rewrite E in Hpc; discriminate|].
+  split; [intros m r ops E; rewrite E in Hpc; discriminate|].
+  split.
+  - cbn. unfold step_loop. rewrite En.
+    destruct (l_pc lc) as [ |m|m|m ops|m r ops| | ] eqn:Epc; auto; try discriminate; right; eauto.
+    destruct ops as [|[|r] ops]; eauto.
+  - intros l lp m r ops Hn E ->. rewrite En in Hn. injection Hn as <-. rewrite E in Hpc. discriminate.
+Qed.
+
+(* consequence for complete runs: every nested request whose response was among the pushed messages has returned *)
+Theorem nested_returns c msgs k sched s :
+  run c (init msgs k) sched = Some s -> terminal c s -> closed s = false ->
+  forall l lp m r ops, nth_error (loops s) l = Some lp -> l_pc lp = PWait m r ops -> ~ In r msgs.
+Proof.
+  intros HR HT Hop l lp m r ops Hn Hpc Hin.
+  pose proof (exactly_once _ _ _ _ _ HR HT Hop) as HP.
+  assert (Hd : delivered r s = true).
+  { unfold delivered. apply existsb_exists. eapply Permutation_in in Hin; [|exact HP].
+    apply in_map_iff in Hin as (e & E & Hin). exists e. split; auto. rewrite E. apply Z.eqb_refl. }
+  pose proof (HT (ALoop l AltQueue)) as H. cbn in H. unfold step_loop in H. rewrite Hn, Hpc, Hd in H. discriminate.
+Qed.
